@@ -35,6 +35,9 @@ Proof.
   - destruct c; symmetry;
       auto using vw_xf_none, vw_xf_panic, vw_xf_string, vw_xf_error, vw_xf_metric.
   - symmetry; apply vw_xf_none.
+  - destruct (reaches ls); [destruct c|]; symmetry;
+      auto using vw_xf_none, vw_xf_panic, vw_xf_string, vw_xf_error, vw_xf_metric.
+  - symmetry; apply vw_xf_string.
 Qed.
 
 Lemma vwrite_term : forall v, vwrite v VWTerm = spec_v v.
